@@ -75,7 +75,7 @@ def h_reno(cfg):
     from onl.sim import Environment
     from onl.packet import TCPPacketGenerator, TCPReno, Flow, Packet
     env = Environment()
-    flow = Flow(flow_id=0, src='s', dst='d', finish_time=INF, size=cfg['flow_mss'] * MSS)
+    flow = Flow(flow_id=0, src='s', dst='d', finish_time=INF, size=cfg['flow_mss'] * MSS + cfg.get('extra_bytes', 0))
     if cfg.get('appl'):
         # application-limited flow: data becomes available one MSS at a time at symbolic instants, so the sender
         # sleeps inside its refill loop (and its window may shrink meanwhile)
@@ -266,6 +266,11 @@ def jobs(tier, seed):
             js.append({'harness': 'reno', 'weight': 3 ** len(h),
                        'cfg': {'events': h, 'flow_mss': 3, 'w0max': 2, 'dupack0': d0, 'max_timeouts': 1 if h else 2,
                                'maxadv': 2}, 'opts': {'max_paths': 4000 if tier == 'quick' else 20000}})
+    # a flow whose size is not a whole number of segments: the last half segment is never sent as a full one
+    for h in (['new'], ['dup']):
+        js.append({'harness': 'reno', 'weight': 3 ** len(h),
+                   'cfg': {'events': h, 'flow_mss': 1, 'extra_bytes': 256, 'w0max': 4, 'dupack0': 0, 'max_timeouts': 1, 'maxadv': 2},
+                   'opts': {'max_paths': 4000}})
     # duplicates arriving when everything sent has been acknowledged (nothing to retransmit; the window rules still apply)
     for h, fm in ((['new', 'dup', 'dup', 'dup'], 1), (['new', 'dup', 'dup', 'dup', 'dup'], 2), (['new', 'new', 'dup', 'dup', 'dup'], 2)):
         js.append({'harness': 'reno', 'weight': 3 ** len(h),
